@@ -1841,6 +1841,17 @@ class MixedBC(ConstBC1stOrderBase):
         """
         super().__init__(grid, axis, upper, rank=rank, value=value)
         self.const = self._parse_value(const)
+        if self.const.ndim > 0 and self.const.shape != self._value.shape:
+            # only one of `value` and `const` varies along the boundary -> use the
+            # inhomogeneous representation for both, so they can be combined
+            shape = self._shape_tensor + self._shape_boundary
+            self._value = np.array(
+                np.broadcast_to(self._match_data_shape(self._value), shape)
+            )
+            self.const = np.array(
+                np.broadcast_to(self._match_data_shape(self.const), shape)
+            )
+            self.homogeneous = False
 
     def __eq__(self, other):
         """Checks for equality neglecting the `upper` property.
